@@ -203,6 +203,7 @@ func mdataRollupHistory(rec *trace.Recorder, dir string, rng *rand.Rand, h int, 
 			}
 		}
 	}
+	yearOpen := true
 	check := func(label string) bool {
 		for _, s := range storesOf(db, "day") {
 			s.ForceRollup()
@@ -217,7 +218,7 @@ func mdataRollupHistory(rec *trace.Recorder, dir string, rng *rand.Rand, h int, 
 		}
 		rec.Emit("Rollup", trace.F{"label": label, "target": "5m", "source": source, "targetblocks": t5, "where": w5,
 			"base": hour * 12, "ratio": 30, "wantfamily": fmt.Sprintf("%s/%d", day.Format("200601"), day.Day())})
-		if withYear {
+		if withYear && yearOpen {
 			t1, w1, err := storeBlocks(storesOf(db, "year"), uint32(metricID))
 			if err != nil {
 				rec.Emit("Error", trace.F{"op": "read target", "err": err.Error()})
@@ -228,6 +229,20 @@ func mdataRollupHistory(rec *trace.Recorder, dir string, rng *rand.Rand, h int, 
 		}
 		return true
 	}
+	// one target out of reach during the first pass (its store is not open, as after a restart before
+	// anything touched that segment): the pass completes the other target; the skipped one must be rolled
+	// up by a later pass
+	lateYear := withYear && w == nil && rng.Intn(2) == 0
+	if lateYear {
+		for _, s := range storesOf(db, "year") {
+			if err := kv.GetStoreManager().CloseStore(s.Name()); err != nil {
+				rec.Emit("Error", trace.F{"op": "close year store", "err": err.Error()})
+				return
+			}
+		}
+		yearOpen = false
+		rec.Emit("Note", trace.F{"what": "1h target store closed during the first rollup pass"})
+	}
 	if !check("first") {
 		return
 	}
@@ -235,7 +250,7 @@ func mdataRollupHistory(rec *trace.Recorder, dir string, rng *rand.Rand, h int, 
 		w.AfterOp = nil
 	}
 	// triggered again: every source file contributes once
-	if !check("again") {
+	if !lateYear && !check("again") {
 		return
 	}
 	// ... also after a restart
@@ -257,6 +272,7 @@ func mdataRollupHistory(rec *trace.Recorder, dir string, rng *rand.Rand, h int, 
 		rec.Emit("Error", trace.F{"op": "reopen family", "err": err.Error()})
 		return
 	}
+	yearOpen = true
 	check("after-restart")
 	// a kill after each manifest commit of the rollup job: restart from that image and roll up again
 	for _, im := range imgs {
@@ -282,6 +298,6 @@ func mdataRollupHistory(rec *trace.Recorder, dir string, rng *rand.Rand, h int, 
 		os.RemoveAll(im.dir)
 	}
 	if len(sum.Samples) < 4 {
-		sum.Samples = append(sum.Samples, map[string]any{"day": day.Format("20060102"), "hour": hour, "files": nfiles, "year": withYear, "compactfirst": compactFirst})
+		sum.Samples = append(sum.Samples, map[string]any{"day": day.Format("20060102"), "hour": hour, "files": nfiles, "year": withYear, "compactfirst": compactFirst, "lateyear": lateYear})
 	}
 }
